@@ -223,11 +223,37 @@ defvjp(
     lambda ans, x, shape, order=None: lambda g: anp.reshape(g, anp.shape(x), order=resolve_order(x, order)),
 )
 defvjp(anp.roll, lambda ans, x, shift, axis=None: lambda g: anp.roll(g, -shift, axis=axis))
-defvjp(anp.array_split, lambda ans, ary, idxs, axis=0: lambda g: anp.concatenate(g, axis=axis))
-defvjp(anp.split, lambda ans, ary, idxs, axis=0: lambda g: anp.concatenate(g, axis=axis))
-defvjp(anp.vsplit, lambda ans, ary, idxs: lambda g: anp.concatenate(g, axis=0))
-defvjp(anp.hsplit, lambda ans, ary, idxs: lambda g: anp.concatenate(g, axis=1))
-defvjp(anp.dsplit, lambda ans, ary, idxs: lambda g: anp.concatenate(g, axis=2))
+def grad_split(ans, ary, idxs, axis=0):
+    if onp.ndim(idxs) == 0:  # a number of sections: the pieces tile the axis in order
+        return lambda g: anp.concatenate(g, axis=axis)
+    # cut points as written: NumPy reads piece i as ary[cut[i]:cut[i + 1]], so negative, repeated or decreasing indices give
+    # empty or overlapping pieces, and some entries may belong to no piece at all
+    axis = axis % anp.ndim(ary)
+    n = anp.shape(ary)[axis]
+    cuts = [0] + [int(i) for i in idxs] + [n]
+    spans = [slice(lo, hi).indices(n)[:2] for lo, hi in zip(cuts[:-1], cuts[1:])]
+    spans = [(lo, max(lo, hi)) for lo, hi in spans]
+    if spans[0][0] == 0 and spans[-1][1] == n and all(a[1] == b[0] for a, b in zip(spans[:-1], spans[1:])):
+        return lambda g: anp.concatenate(g, axis=axis)
+    shape, dtype = anp.shape(ary), anp.result_type(ary)
+
+    def zeros_along(k):
+        return onp.zeros(shape[:axis] + (k,) + shape[axis:][1:], dtype=dtype)
+
+    def vjp(g):  # every piece's cotangent goes back, padded with zeros, to the span it was read from
+        return sum(
+            anp.concatenate((zeros_along(lo), g_piece, zeros_along(n - hi)), axis=axis)
+            for g_piece, (lo, hi) in zip(g, spans)
+        )
+
+    return vjp
+
+
+defvjp(anp.array_split, grad_split)
+defvjp(anp.split, grad_split)
+defvjp(anp.vsplit, lambda ans, ary, idxs: grad_split(ans, ary, idxs, 0))
+defvjp(anp.hsplit, lambda ans, ary, idxs: grad_split(ans, ary, idxs, 1))
+defvjp(anp.dsplit, lambda ans, ary, idxs: grad_split(ans, ary, idxs, 2))
 defvjp(
     anp.ravel, lambda ans, x, order=None: lambda g: anp.reshape(g, anp.shape(x), order=resolve_order(x, order))
 )
